@@ -2292,7 +2292,50 @@ func lenEvidence(pk *packages.Package, cf *funcCFG, body *ast.BlockStmt, site as
 		return ""
 	}
 	// lenAtLeast(e): e implies len(path) >= v ?
-	implies := func(e ast.Expr, truth bool) int64 {
+	var impliesAt func(e ast.Expr, truth bool, path string, depth int) int64
+	implies := func(e ast.Expr, truth bool) int64 { return impliesAt(e, truth, path, 0) }
+	impliesAt = func(e ast.Expr, truth bool, path string, depth int) int64 {
+		// a predicate helper of the package whose body is one returned conjunction: when it holds, every conjunct
+		// holds of the argument that stands for the helper's parameter
+		if call, isCall := ast.Unparen(e).(*ast.CallExpr); isCall && truth && depth < 3 {
+			if cal := callee(pk, call); cal != nil && cal.Pkg() == pk.Types {
+				var decl *ast.FuncDecl
+				for _, file := range pk.Syntax {
+					for _, d := range file.Decls {
+						if fd, ok := d.(*ast.FuncDecl); ok && pk.TypesInfo.Defs[fd.Name] == types.Object(cal) {
+							decl = fd
+						}
+					}
+				}
+				if decl != nil && decl.Body != nil && len(decl.Body.List) == 1 {
+					if ret, ok := decl.Body.List[0].(*ast.ReturnStmt); ok && len(ret.Results) == 1 {
+						k, best := 0, int64(-1)
+						for _, fl := range decl.Type.Params.List {
+							for _, nm := range fl.Names {
+								if k < len(call.Args) && accessPath(pk, call.Args[k]) == path {
+									var cj func(x ast.Expr) []ast.Expr
+									cj = func(x ast.Expr) []ast.Expr {
+										if b2, ok := ast.Unparen(x).(*ast.BinaryExpr); ok && b2.Op == token.LAND {
+											return append(cj(b2.X), cj(b2.Y)...)
+										}
+										return []ast.Expr{x}
+									}
+									for _, one := range cj(ret.Results[0]) {
+										if v := impliesAt(one, true, accessPath(pk, nm), depth+1); v > best {
+											best = v
+										}
+									}
+								}
+								k++
+							}
+						}
+						if best >= 0 {
+							return best
+						}
+					}
+				}
+			}
+		}
 		be, ok := ast.Unparen(e).(*ast.BinaryExpr)
 		if !ok {
 			return -1
